@@ -618,9 +618,9 @@ fn check_multi(c: Cfg, d: &EntDraw, rs: &[(u64, u64); 3], resp: crate::body::Bod
         }
         j += 1;
     }
-    hdr_assert!(c, unsafe { PM_INCL } == with_hdrs, "C05/C06: entity headers in the parts do not follow the If-Range rule");
+    hdr_assert!(c, unsafe { PM_INCL } == with_hdrs, "C05/C06/C15: entity headers in the parts do not follow the If-Range rule (for GET and HEAD alike)");
     if with_hdrs {
-        hdr_assert!(c, unsafe { PM_INCL_N } == d.nhdr as usize, "C06/C14: parts do not carry exactly the entity's headers");
+        hdr_assert!(c, unsafe { PM_INCL_N } == d.nhdr as usize, "C06/C14/C15: parts do not carry exactly the entity's headers");
     }
     if st == 413 {
         // only when the multipart length cannot be expressed (decided by prepare_multipart: prep_unit_*)
